@@ -1,3 +1,5 @@
 import Lean.Meta.Tactic.Simp.RegisterCommand
 /-! simp set of the frame lemmas of the channel model's primitive state updates -/
 register_simp_attr chan_frame
+/-! simp set of the view-level frame lemmas (`(prim s).sview = s.sview`) -/
+register_simp_attr sview_frame
